@@ -31,16 +31,21 @@ def _cvc5(smt2: str, ms: int):
         os.unlink(path)
 
 
-def check_sat(assertions, ms: int = QUICK_MS, use_cvc5: bool = True, seed: int = 7):
+def check_sat(assertions, ms: int = QUICK_MS, use_cvc5: bool = True, seed: int = 7, ematch_only: bool = False):
     """-> (status in {'sat','unsat','unknown'}, model or None, seconds, backend)"""
     s = z3.Solver()
     s.set("timeout", ms)
     s.set("random_seed", seed)
+    if ematch_only:          # E-matching only (no model-based instantiation): fast and predictable on goals closed by pattern instances;
+        s.set("smt.mbqi", False)          # it can only answer unsat or unknown here, a 'sat' under this setting is not trusted
+        s.set("smt.auto_config", False)
     for a in assertions:
         s.add(a)
     t = time.time()
     r = s.check()
     dt = time.time() - t
+    if r == z3.sat and ematch_only:
+        return "unknown", None, dt, "z3"
     if r == z3.sat:
         return "sat", s.model(), dt, "z3"
     if r == z3.unsat:
@@ -54,9 +59,9 @@ def check_sat(assertions, ms: int = QUICK_MS, use_cvc5: bool = True, seed: int =
     return "unknown", None, dt, "z3"
 
 
-def prove(hyps, goal, ms: int = QUICK_MS, use_cvc5: bool = True, seed: int = 7):
+def prove(hyps, goal, ms: int = QUICK_MS, use_cvc5: bool = True, seed: int = 7, ematch_only: bool = False):
     """validity of  hyps => goal.  -> (verdict in proved/refuted/undecided, model, secs, backend)"""
-    st, m, dt, be = check_sat(list(hyps) + [z3.Not(goal)], ms, use_cvc5, seed)
+    st, m, dt, be = check_sat(list(hyps) + [z3.Not(goal)], ms, use_cvc5, seed, ematch_only)
     return {"unsat": "proved", "sat": "refuted", "unknown": "undecided"}[st], m, dt, be
 
 
